@@ -32,10 +32,13 @@ CLAIMS["C01"] = dict(
          "waiting child => woken, parent waker = current task waker) by induction over the scan and the operation list, "
          "once for every 'Conc' policy. Theorem C01_no_lost_wake_seq (FcProps/C01seq.lean): the same monitor for the "
          "sequential pass-through families chain, wait_until (future and stream), all n, scripts and histories (invariant: at "
-         "most one child is waiting, it is the head of the next scan and was polled with the current task waker). The groups "
-         "are covered by the same monitor on real traces + trace equality with their model, not yet by theorem; nesting is "
-         "exercised by the harness only.",
-    note=TB + " Not by theorem yet: FutureGroup, StreamGroup, one level of nesting.",
+         "most one child is waiting, it is the head of the next scan and was polled with the current task waker). Theorem "
+         "C01_no_lost_wake_group (FcProps/C01g.lean): the same monitor for FutureGroup and StreamGroup, plain and keyed, both "
+         "waker strategies, over every history of insert/remove/reserve/extend/poll/fire/drop with fresh members of the right "
+         "kind (kernel invariants re-proved for a slot -> member map: exact ready count across resize/insert, bits and owed "
+         "wake-ups of current members, stale wakers of removed members only touch vacant or re-armed slots). One level of "
+         "nesting is exercised by the harness only.",
+    note=TB + " Not by theorem: one level of nesting (composition of two model instances).",
     design_ref="DESIGN.md §7 C01, Appendix A")
 
 CLAIMS["C20"] = dict(
@@ -45,8 +48,11 @@ CLAIMS["C20"] = dict(
          "that was waiting and whose waker had fired when the poll began was polled during this poll. Proved by one "
          "induction together with C01 (invariants: never-polled child => eligible and armed; woken waiting child stays "
          "armed until the scan reaches it; a Pending outcome only arises from an empty readiness set or a complete scan). "
-         "FutureGroup/StreamGroup: monitor on real traces + trace equality with the group model, no theorem yet.",
-    note=TB + " Groups: correspondence + monitor on real traces only.",
+         "Theorem C20_concurrent_group (FcProps/C20g.lean): the same monitor for FutureGroup/StreamGroup over every "
+         "group history with fresh members of the right kind, incl. members inserted into reused slots and growth while "
+         "members are pending (insert and resize arm the new member's slot; a never-completing member never keeps a woken "
+         "sibling from being polled).",
+    note=TB,
     design_ref="DESIGN.md §7 C20")
 
 CLAIMS["C04"] = dict(
